@@ -19,6 +19,7 @@ from fgutils.its import ITS
 from fgutils.torch.ITSDataset import ITSDataset
 
 ID = "C18"
+REPEAT_PROBE = True   # engine: repeat 1 call in 5 after editing its first result in place (purity / no shared state)
 PROPS = "Props/C18.v"
 MODEL_FILES = ["Model/Torch.v", "Spec/TorchCheck.v"]
 IMPORTS = "From FGV Require Import Model.Torch Spec.PeriodicRef Spec.TorchSpec Spec.TorchCheck."
